@@ -237,7 +237,9 @@ def _validate_sequence_table(ctx, qualname, class_qualname, decimal=False):
     decide(ctx, "O1.3", "membership is independent of earlier calls", qualname, cell, min_cells=9)
 
 
-def _validate_table(ctx, qualname, class_qualname, item_counts, decimal=False):
+def _validate_table(ctx, qualname, class_qualname, item_counts, decimal=False, infinity=False):
+    """``infinity``: also probe with +-Infinity, which is no number "written with the data format's separators" (C02) and
+    must be refused like NaN; C01 itself does not decide whether an infinite value lies inside an open item."""
     model = ctx.model
     cls = model.cls(class_qualname)
 
@@ -255,25 +257,40 @@ def _validate_table(ctx, qualname, class_qualname, item_counts, decimal=False):
             items_value = list(items)
         probe = Sym("v")
         not_a_number = False
+        probe_kind = "finite"
+        pending_facts = []
         if decimal:
             probe.is_decimal = True
-            not_a_number = ch.choose("probe", ["finite", "NaN"]) == "NaN"
+            probe_kind = ch.choose("probe", ["finite", "NaN"] + (["Infinity"] if infinity else []))
+            not_a_number = probe_kind != "finite"
+            if probe_kind == "Infinity":
+                # larger than every limit
+                for lower, upper in items:
+                    for limit in (lower, upper):
+                        if limit is not None:
+                            pending_facts.append((("s", "v"), ">", ("s", limit.key())))
 
             @stub
             def is_nan(interp_, args, kwargs):
-                return not_a_number
+                return probe_kind == "NaN"
 
             @stub
             def is_finite(interp_, args, kwargs):
-                return not not_a_number
+                return probe_kind == "finite"
 
-            probe.methods = {"is_nan": is_nan, "is_finite": is_finite, "quantize": stub(lambda i, a, k: _rounded(probe)),
+            @stub
+            def is_infinite(interp_, args, kwargs):
+                return probe_kind == "Infinity"
+
+            probe.methods = {"is_nan": is_nan, "is_finite": is_finite, "is_infinite": is_infinite, "quantize": stub(lambda i, a, k: _rounded(probe)),
                              "__round__": stub(lambda i, a, k: _rounded(probe)), "normalize": stub(lambda i, a, k: probe)}
 
         def setup(interp):
             for lower, upper in items:
                 if lower is not None and upper is not None:
                     interp.order.declare(("s", lower.key()), "<=", ("s", upper.key()))
+            for left, relation, right in pending_facts:
+                interp.order.declare(left, relation, right)
             attrs = init_literal_attrs(model, cls)
             attrs.update({"_items": items_value, "_precision": 0, "_scale": 0})
             self_obj = Obj(cls, attrs, label="range")
@@ -292,7 +309,7 @@ def _validate_table(ctx, qualname, class_qualname, item_counts, decimal=False):
         else:
             expected = "accept" if _membership_oracle(interp, items, probe) else "raise RangeValueError"
         facts = ", ".join("%s%s%s" % (a[1], rel, b[1]) for a, rel, b in interp.order.facts)
-        return ("items=%s%s order[%s]" % ("none" if items_value is None else "+".join(shapes), " probe=NaN" if not_a_number else "", facts),
+        return ("items=%s%s order[%s]" % ("none" if items_value is None else "+".join(shapes), " probe=" + probe_kind if not_a_number else "", facts),
                 actual, expected)
 
     decide(ctx, "O1.3", "membership", qualname, cell, min_cells=10)
@@ -353,11 +370,11 @@ def items_overlap_table(ctx, rule="O1.3"):
     decide(ctx, rule, "items-overlap", qualname, cell, min_cells=20)
 
 
-def rule_membership(ctx):
+def rule_membership(ctx, infinity=False):
     ctx.res.minimum("O1.3", 5)
     counts = [None, 1, 2] + ([3] if ctx.thorough else [])
     _validate_table(ctx, RANGE + ".validate", RANGE, counts)
-    _validate_table(ctx, DECIMAL_RANGE + ".validate", DECIMAL_RANGE, counts, decimal=True)
+    _validate_table(ctx, DECIMAL_RANGE + ".validate", DECIMAL_RANGE, counts, decimal=True, infinity=infinity)
     _item_contains_table(ctx)
     items_overlap_table(ctx)
     _validate_sequence_table(ctx, RANGE + ".validate", RANGE)
